@@ -16,6 +16,19 @@ THEOREMS = [
     "NakenVerif.Expr.adjacent_operands_rejected",
     "NakenVerif.Expr.lone_unary_rejected",
     "NakenVerif.Expr.eval32_truncates",
+    "NakenVerif.Expr.unary_no_fault",
+    "NakenVerif.Expr.eval_no_fault",
+    "NakenVerif.Expr.Literal.literal_decimal",
+    "NakenVerif.Expr.Literal.literal_decimal_sep",
+    "NakenVerif.Expr.Literal.literal_hex_prefix",
+    "NakenVerif.Expr.Literal.literal_hex_prefix_sep",
+    "NakenVerif.Expr.Literal.literal_bin_prefix",
+    "NakenVerif.Expr.Literal.literal_bin_prefix_sep",
+    "NakenVerif.Expr.Literal.literal_octal_leading_zero",
+    "NakenVerif.Expr.Literal.literal_octal_leading_zero_sep",
+    "NakenVerif.Expr.Literal.literal_hex_postfix",
+    "NakenVerif.Expr.Literal.literal_oct_postfix",
+    "NakenVerif.Expr.Literal.literal_bin_postfix",
 ]
 RULE = ("expressions: every operator pair and triple as a flat chain, random trees (depth<=6) rendered with "
         "minimal and redundant parentheses, literals in every documented notation at boundary values, plus a "
